@@ -38,23 +38,25 @@ Definition srow_rel (r1 : option (srow * lp)) (r2 : option (res * lp)) : Prop :=
   end.
 
 Variable s : nbr.
+Variable quick : bool.
+Variable raw : list R.
 Hypothesis row_sim : forall l1 l2 seed row orc, good l1 -> good l2 ->
-  srow_rel (simnbr_row N aeqb RG s l1 seed row (own_cache s row) orc) (nbr_row N aeqb RG s l2 seed row orc true).
+  srow_rel (simnbr_row N aeqb RG s l1 quick raw seed row (own_cache s row) orc) (nbr_row N aeqb RG s l2 seed row orc true).
 
 Definition preds_of (l : list srow) : list res := map (fun x => inl (fst (fst x))) l.
 
 Lemma sim_rows_refine : forall rows seeds orcs l1 l2, good l1 -> good l2 ->
-  option_map preds_of (simnbr_rows N aeqb RG s l1 seeds rows (map (own_cache s) rows) orcs)
+  option_map preds_of (simnbr_rows N aeqb RG s l1 quick raw seeds rows (map (own_cache s) rows) orcs)
   = nbr_rows N aeqb RG s l2 seeds rows orcs true.
 Proof.
   induction rows as [|row rows IH]; intros seeds orcs l1 l2 G1 G2.
   - destruct seeds; reflexivity.
   - destruct seeds as [|sd seeds]; [reflexivity|]. cbn [map simnbr_rows nbr_rows hd tl].
     pose proof (row_sim l1 l2 sd row (hd [] orcs) G1 G2) as Hr. unfold srow_rel in Hr.
-    destruct (simnbr_row N aeqb RG s l1 sd row (own_cache s row) (hd [] orcs)) as [[[[p e] k] l1']|];
+    destruct (simnbr_row N aeqb RG s l1 quick raw sd row (own_cache s row) (hd [] orcs)) as [[[[p e] k] l1']|];
       destruct (nbr_row N aeqb RG s l2 sd row (hd [] orcs) true) as [[o l2']|]; try contradiction; try reflexivity.
     destruct Hr as (-> & K1 & K2). rewrite <- (IH seeds (tl orcs) l1' l2' K1 K2).
-    destruct (simnbr_rows N aeqb RG s l1' seeds rows (map (own_cache s) rows) (tl orcs)); reflexivity.
+    destruct (simnbr_rows N aeqb RG s l1' quick raw seeds rows (map (own_cache s) rows) (tl orcs)); reflexivity.
 Qed.
 
 Lemma chunks_map {T U} (f : T -> U) (sizes : list nat) (l : list T) : chunks sizes (map f l) = map (map f) (chunks sizes l).
@@ -67,7 +69,7 @@ Lemma sim_chunks_refine : forall sizes seeds cx orcs, good (n_lp s) ->
   option_map preds_of
     (fold_right (fun r acc => match r, acc with Some x, Some y => Some (x ++ y) | _, _ => None end) (Some [])
        (map (fun p => let '(sd, rows, cch, orc) := (p : list Z * mat (R:=R) * mat (R:=R) * list (list nat)) in
-                      simnbr_rows N aeqb RG s (n_lp s) sd rows cch orc)
+                      simnbr_rows N aeqb RG s (n_lp s) quick raw sd rows cch orc)
             (combine (combine (combine (chunks sizes seeds) (chunks sizes cx)) (chunks sizes (map (own_cache s) cx))) (chunks sizes orcs))))
   = fold_right (fun r acc => match r, acc with Some x, Some y => Some (x ++ y) | _, _ => None end) (Some [])
        (map (fun p => let '(sd, rows, orc) := (p : list Z * mat (R:=R) * list (list nat)) in
@@ -79,14 +81,14 @@ Proof.
   cbn [chunks map combine fold_right].
   rewrite <- (IH (skipn n seeds) (skipn n cx) (skipn n orcs)).
   rewrite <- (sim_rows_refine (firstn n cx) (firstn n seeds) (firstn n orcs) (n_lp s) (n_lp s) Gt Gt).
-  destruct (simnbr_rows N aeqb RG s (n_lp s) (firstn n seeds) (firstn n cx) (map (own_cache s) (firstn n cx)) (firstn n orcs)) as [x|]; [|reflexivity].
+  destruct (simnbr_rows N aeqb RG s (n_lp s) quick raw (firstn n seeds) (firstn n cx) (map (own_cache s) (firstn n cx)) (firstn n orcs)) as [x|]; [|reflexivity].
   match goal with |- context [fold_right ?f ?a ?l] => destruct (fold_right f a l) as [y|] end; [|reflexivity].
   simpl. unfold preds_of. rewrite map_app. reflexivity.
 Qed.
 
 (* one predict call of the simulator class = one predict call of the library class *)
 Theorem sim_predict_refines g cx orcs sizes : good (n_lp s) ->
-  let (r, g1) := simnbr_predict N aeqb RG s g cx (sim_distances N s cx) orcs sizes in
+  let (r, g1) := simnbr_predict N aeqb RG s quick raw g cx (sim_distances N s cx) orcs sizes in
   nbr_predict N aeqb RG s g cx orcs sizes true = (option_map preds_of r, g1).
 Proof.
   intros Gt. unfold simnbr_predict, nbr_predict. rewrite sim_distances_own.
@@ -121,10 +123,10 @@ Proof.
 Qed.
 
 Lemma cf_row_sim (s : nbr) (t : cf) : keys_ok t -> clean N t ->
-  forall l1 l2 seed row orc, lp_cf_good t l1 -> lp_cf_good t l2 ->
-  srow_rel (lp_cf_good t) (simnbr_row N aeqb RG s l1 seed row (own_cache N s row) orc) (nbr_row N aeqb RG s l2 seed row orc true).
+  forall quick raw l1 l2 seed row orc, lp_cf_good t l1 -> lp_cf_good t l2 ->
+  srow_rel (lp_cf_good t) (simnbr_row N aeqb RG s l1 quick raw seed row (own_cache N s row) orc) (nbr_row N aeqb RG s l2 seed row orc true).
 Proof.
-  intros Hkt Hct l1 l2 seed row orc [c1 [-> G1]] [c2 [-> G2]].
+  intros Hkt Hct quick raw l1 l2 seed row orc [c1 [-> G1]] [c2 [-> G2]].
   unfold simnbr_row, nbr_row, srow_rel. rewrite sim_neighborhood_own.
   destruct (neighborhood N s row orc) as [[|i idx]|]; [| |exact I].
   - destruct (draw_z RG (create RG seed) (RqChoice (length (n_arms s)) (n_nnprob s))) as [v g'].
@@ -149,13 +151,13 @@ Proof.
 Qed.
 
 (* C15, Radius / KNearest / LSHNearest over a context-free learning policy *)
-Theorem sim_predict_refines_library_cf (s : nbr) (t : cf) g cx orcs sizes :
+Theorem sim_predict_refines_library_cf (s : nbr) (t : cf) quick raw g cx orcs sizes :
   n_lp s = LCf t -> keys_ok t -> clean N t ->
-  let (r, g1) := simnbr_predict N aeqb RG s g cx (sim_distances N s cx) orcs sizes in
+  let (r, g1) := simnbr_predict N aeqb RG s quick raw g cx (sim_distances N s cx) orcs sizes in
   nbr_predict N aeqb RG s g cx orcs sizes true = (option_map (@preds_of R A) r, g1).
 Proof.
   intros El Hkt Hct.
-  apply (sim_predict_refines N aeqb RG (lp_cf_good t) s (cf_row_sim s t Hkt Hct)).
+  apply (sim_predict_refines N aeqb RG (lp_cf_good t) s quick raw (cf_row_sim s t Hkt Hct quick raw)).
   rewrite El. exists t. split; [reflexivity | apply cf_good_refl; assumption].
 Qed.
 
@@ -184,10 +186,10 @@ Proof.
 Qed.
 
 Lemma lin_row_sim (s : nbr) (t : lin) : lin_keys_ok t ->
-  forall l1 l2 seed row orc, lp_lin_good t l1 -> lp_lin_good t l2 ->
-  srow_rel (lp_lin_good t) (simnbr_row N aeqb RG s l1 seed row (own_cache N s row) orc) (nbr_row N aeqb RG s l2 seed row orc true).
+  forall quick raw l1 l2 seed row orc, lp_lin_good t l1 -> lp_lin_good t l2 ->
+  srow_rel (lp_lin_good t) (simnbr_row N aeqb RG s l1 quick raw seed row (own_cache N s row) orc) (nbr_row N aeqb RG s l2 seed row orc true).
 Proof.
-  intros Hkt l1 l2 seed row orc [c1 [-> G1]] [c2 [-> G2]].
+  intros Hkt quick raw l1 l2 seed row orc [c1 [-> G1]] [c2 [-> G2]].
   unfold simnbr_row, nbr_row, srow_rel. rewrite sim_neighborhood_own.
   destruct (neighborhood N s row orc) as [[|i idx]|]; [| |exact I].
   - destruct (draw_z RG (create RG seed) (RqChoice (length (n_arms s)) (n_nnprob s))) as [v g'].
@@ -221,13 +223,13 @@ Proof.
 Qed.
 
 (* C15, Radius / KNearest / LSHNearest over LinGreedy or LinUCB *)
-Theorem sim_predict_refines_library_linear (s : nbr) (t : lin) g cx orcs sizes :
+Theorem sim_predict_refines_library_linear (s : nbr) (t : lin) quick raw g cx orcs sizes :
   n_lp s = LLin t -> lin_keys_ok t -> l_kind t <> RTs ->
-  let (r, g1) := simnbr_predict N aeqb RG s g cx (sim_distances N s cx) orcs sizes in
+  let (r, g1) := simnbr_predict N aeqb RG s quick raw g cx (sim_distances N s cx) orcs sizes in
   nbr_predict N aeqb RG s g cx orcs sizes true = (option_map (@preds_of R A) r, g1).
 Proof.
   intros El Hkt Hnt.
-  apply (sim_predict_refines N aeqb RG (lp_lin_good t) s (lin_row_sim s t Hkt)).
+  apply (sim_predict_refines N aeqb RG (lp_lin_good t) s quick raw (lin_row_sim s t Hkt quick raw)).
   rewrite El. exists t. split; [reflexivity|]. split; [exact Hkt|]. split; [apply lin_cfg_refl | exact Hnt].
 Qed.
 
